@@ -935,6 +935,12 @@ func (h *history) wSaveCheckpoints() {
 			}
 			c = &cc
 		}
+		for _, bi := range h.u.blocks {
+			if bi.hash == c.Hash && !bi.saved {
+				// record without block header: GetCheckpoint fails, the list getters skip it
+				h.s.Count("write:SaveCheckpoints[block-not-saved]", 1)
+			}
+		}
 		list = append(list, c)
 		ids = append(ids, "cp:"+c.Hash.String())
 		styles[how] = true
@@ -1059,11 +1065,12 @@ func TestC21(t *testing.T) {
 		r.Floor("read:"+g, 100)
 		r.Floor("read:"+g+":ok", 30)
 	}
-	for _, g := range []string{"GetBlockHeader", "GetBlock", "GetBlockTransactions", "GetMainChainHash", "GetUtxo", "GetContract", "GetCheckpoint", "GetCheckpointsByHeight", "CheckpointsFromNode"} {
+	// GetCheckpointsByHeight has no error path on well-formed records (records without header are skipped)
+	for _, g := range []string{"GetBlockHeader", "GetBlock", "GetBlockTransactions", "GetMainChainHash", "GetUtxo", "GetContract", "GetCheckpoint", "CheckpointsFromNode"} {
 		r.Floor("read:"+g+":error", 30)
 	}
 	for _, w := range []string{"SaveBlock", "SaveBlock(resave)", "SaveBlockHeader", "SaveBlockHeader[header-from-store]", "SaveBlockHeader[own-header]", "SaveChainStatus",
-		"SaveCheckpoints", "SaveCheckpoints[from-store]", "SaveCheckpoints[own]"} {
+		"SaveCheckpoints", "SaveCheckpoints[from-store]", "SaveCheckpoints[own]", "SaveCheckpoints[block-not-saved]"} {
 		r.Floor("write:"+w, 100)
 	}
 	r.Floor("read_repeat", 1000)
